@@ -282,7 +282,9 @@ func NewInitApp(
 		appCodec,
 		keys[slashingtypes.StoreKey],
 		&customStakingKeeper,
-		multiStakingKeeper,
+		// by reference, like the staking keeper: a copy taken here has neither the hooks nor the distributor
+		// keeper set below, and SlashStakingPool (slash proposal enactment) dereferences the latter
+		&app.MultiStakingKeeper,
 		app.CustomGovKeeper,
 	)
 
